@@ -15,6 +15,15 @@ for d in sorted(glob.glob(os.path.join(HERE, "seeded", "*"))):
     if m:
         needs = " ".join(m.group(0).split())[:600]
     caught = sorted(c for c, r in res.items() if r.get("exit") == 1)
+    special = {
+        "C16-m1": "NOT a violation of C16 as stated: the change only makes the queue deliver an equal item it could have dropped (the marker is cleared "
+                  "too early); the statement forbids losing anything else, it does not demand the drop. No check is expected to fire; kept for the record.",
+        "C18-m1": "NOT APPLICABLE to the repaired tree: it relied on the unconditional first wait of EventDebouncer.run, which the F6 fix replaced by a "
+                  "predicate loop; the original patch no longer applies and the re-based change does not break the property.",
+        "C14-m2": "caught end-to-end (C02 probes / C03 justification), not by C14's generator oracle: the change is in the inotify re-keying, not in the generators",
+        "C14-m3": "after the F7/F8 fixes this change no longer breaks the demo's rename scenario (the book-keeping is refreshed on IN_MOVED_TO); it still breaks "
+                  "C02/C03 through directories that left the tree (same change as C03-m2 / C01-r2m3)",
+    }
     meta = {
         "property": pid,
         "origin": "written by an independent sub-agent that was given only the property text and its own scratch worktree of /repo",
@@ -26,6 +35,7 @@ for d in sorted(glob.glob(os.path.join(HERE, "seeded", "*"))):
             "confirmed": conf.get("CONFIRMED"), "how": "tools/confirm_seed.sh (git worktree of /repo under /tmp, removed afterwards)"},
         "checks_run_against_it": {c: {"exit": r.get("exit"), "mechanisms": r.get("mechanisms"), "patch_applies": r.get("applies")} for c, r in res.items()},
         "caught_by": caught,
+        "remark": special.get(name, ""),
         "how_run": "tools/try_seed.sh <patch> <ID> quick  (scratch worktree + VERIF_REPO; equivalent to git -C /repo apply; ./check; git -C /repo checkout -- .)",
     }
     json.dump(meta, open(os.path.join(d, "meta.json"), "w"), indent=1)
